@@ -34,16 +34,17 @@ type c35Rec struct {
 }
 
 type c35State struct {
-	dir    string
-	m      *mcNode
-	broken bool // the instance cannot continue (setup failed)
-	ref    []c35Rec
-	writes [3]int
-	idx    int
-	hist   []byte
-	fresh  bool                 // no write since the node was (re)built
-	lastTx *crypto.Hash         // transaction of the most recent write on chain A or B
-	onC    map[crypto.Hash]bool // transactions already carried by a snapshot of chain C
+	dir     string
+	m       *mcNode
+	broken  bool // the instance cannot continue (setup failed)
+	ref     []c35Rec
+	writes  [3]int
+	idx     int
+	hist    []byte
+	fresh   bool                 // no write since the node was (re)built
+	pending []int                // replayed events not executed yet (see c35Step)
+	lastTx  *crypto.Hash         // transaction of the most recent write on chain A or B
+	onC     map[crypto.Hash]bool // transactions already carried by a snapshot of chain C
 }
 
 func c35Scratch() string {
@@ -72,22 +73,60 @@ func c35GenesisRef() []c35Rec {
 	return out
 }
 
+// c35New creates the (still unopened) instance: the store is created when the
+// whole history is known (c35Step), on disk when the history contains a
+// reopen, in memory otherwise (a real on-disk Badger open is ~20x dearer).
 func c35New(int) *c35State {
-	s := &c35State{dir: c35Scratch(), fresh: true, onC: map[crypto.Hash]bool{}}
+	return &c35State{fresh: true, onC: map[crypto.Hash]bool{}, ref: c35GenesisRef()}
+}
+
+func (s *c35State) open(disk bool) {
+	if disk {
+		s.dir = c35Scratch()
+	}
 	m, err := newMCNode(mcNet7, 0, s.dir)
 	if err != nil {
 		panic(fmt.Errorf("c35: node setup: %w", err))
 	}
 	s.m = m
-	s.ref = c35GenesisRef()
-	return s
 }
 
 func c35Close(s *c35State) {
 	if s.m != nil {
 		s.m.Close()
 	}
-	_ = os.RemoveAll(s.dir)
+	if s.dir != "" {
+		_ = os.RemoveAll(s.dir)
+	}
+}
+
+// c35Step is the BFS transition function. Events of the parent history are only
+// recorded while replaying; with the last event the instance is opened and the
+// complete history executed for real (position oracle in every step, full
+// query menu in the final state).
+func c35Step(s *c35State, e int, replaying bool, report func(key, desc string)) bool {
+	if replaying {
+		s.pending = append(s.pending, e)
+		return true
+	}
+	hist := append(append([]int(nil), s.pending...), e)
+	s.pending = nil
+	disk := false
+	for _, ev := range hist {
+		disk = disk || ev == 3
+	}
+	s.open(disk)
+	for i, ev := range hist {
+		last := i == len(hist)-1
+		rep := report
+		if !last {
+			rep = func(string, string) {} // reported when that prefix was explored
+		}
+		if !c35Apply(s, ev, !last, rep) {
+			return false
+		}
+	}
+	return true
 }
 
 func c35Key(s *c35State) string {
@@ -337,12 +376,13 @@ func c35RefPositions(l []c35Rec) []uint64 {
 func TestMC_C35(t *testing.T) {
 	c := verifmc.Start(t, "C35", "model_checking")
 	defer c.Finish()
-	c.SetRule("BFS over all histories of {TopoWrite of the next prepared one-transaction snapshot on chain A/B/C (A,B: fresh deposit; C: re-finalization of the latest A/B transaction when not yet on C, else a fresh deposit), close + reopen of the on-disk store with a real SetupNode}; state = sequence of writes with reopen marks (a reopen directly after (re)building the node is the same state); in every state the full menu ReadSnapshotsSinceTopology(off,cnt) for off in {0,1,middle,last,last+1,2^64-1} x cnt in {0,1,2,500,501}, ReadSnapshotWithTransactionsSinceTopology, ReadSnapshot of every written and one unknown hash, and the raw TOPOLOGY/SNAPTOPO dump are compared with a Go slice of (position, payload hash)")
+	c.SetRule("BFS over all histories of {TopoWrite of the next prepared one-transaction snapshot on chain A/B/C (A,B: fresh deposit; C: re-finalization of the latest A/B transaction when not yet on C, else a fresh deposit), close + reopen of the on-disk store with a real SetupNode} (histories without a reopen run on in-memory Badger, all others on disk); state = sequence of writes with reopen marks (a reopen directly after (re)building the node is the same state); in every state the full menu ReadSnapshotsSinceTopology(off,cnt) for off in {0,1,middle,last,last+1,2^64-1} x cnt in {0,1,2,500,501}, ReadSnapshotWithTransactionsSinceTopology, ReadSnapshot of every written and one unknown hash, and the raw TOPOLOGY/SNAPTOPO dump are compared with a Go slice of (position, payload hash)")
 	c.Assume("snapshots are handed to Node.TopoWrite directly (the finalization path above it is not part of this property)", "the reference prefix is the genesis snapshot list produced by Genesis.BuildSnapshots", "Badger transactions are atomic; close is clean (no crash)")
 
 	// sanity of the fixture before exploring
 	{
 		s := c35New(0)
+		s.open(true)
 		g, err := s.m.Store.ReadSnapshotsSinceTopology(0, 500)
 		c.Require(err == nil && len(g) == len(s.ref) && len(s.ref) == len(mcNet7.Signers)+1, "genesis listing has %d snapshots, reference %d: %v", len(g), len(s.ref), err)
 		c.Require(s.m.Node.TopologicalOrder() == s.maxPos(), "fresh node counter %d, genesis maximum %d", s.m.Node.TopologicalOrder(), s.maxPos())
@@ -354,7 +394,7 @@ func TestMC_C35(t *testing.T) {
 		EventName: func(e int) string { return c35Events[e] },
 		New:       c35New,
 		Apply: func(s *c35State, e int, replaying bool, report func(key, desc string)) bool {
-			ok := c35Apply(s, e, replaying, report)
+			ok := c35Step(s, e, replaying, report)
 			if ok && !replaying && s.m != nil {
 				n := int64(len(c35Counts)*6 + 3 + len(s.ref) + 1 + 1) // listings + with-transactions + lookups + unknown + raw dump
 				c.Add("queries", n)
